@@ -25,11 +25,13 @@ def replay_emit(chk, e, D, M, kind, real_t, h):
     gshape = (9, 14) if D == 2 else (8, 11, 15)          # array order (.., y, x)
     far = (sum(m["i"][0] for m in mk) + e["mf"]) % 2 == 0
     shift = [(gshape[D - 1 - k] - 7) if far else 0 for k in range(D)]   # physical axis k lives on array axis D-1-k
+    # the grid origin is a parameter of the operators (cell centres at i h + sfrac h; the simulators use sfrac = 1/2)
+    sfrac = (0.5, 0.0, -1.75)[(sum(m["i"][-1] for m in mk) + e["mf"]) % 3]
     pos = np.empty((D, N), dtype=real_t)
     for n, m in enumerate(mk):
         for k in range(D):
-            pos[k, n] = real_t((m["i"][k] + shift[k] + m["r"][k] / M) * h + h / 2)
-    c = interp.comm(D, h, N, real_t, kind, 1)
+            pos[k, n] = real_t((m["i"][k] + shift[k] + m["r"][k] / M) * h + sfrac * h)
+    c = interp.comm(D, h, N, real_t, kind, 1, sfrac)
     idx, w = interp.support_and_weights(c, pos, D, real_t)
     F = np.zeros(N, dtype=real_t)
     F[e["mf"] - 1] = 1
@@ -63,20 +65,21 @@ def replay_emit(chk, e, D, M, kind, real_t, h):
 
 
 def adjoint_on_code(chk, D, kind, real_t, h, rng, N, ncomp, clustered):
+    sfrac = (0.5, 0.0 if real_t is np.float64 else -2.25)[int(rng.integers(0, 2))]       # grid origin (see replay_emit)
     gshape = [(9, 17), (16, 10)][int(rng.integers(0, 2))] if D == 2 else [(8, 11, 17), (16, 9, 8), (9, 15, 10)][int(rng.integers(0, 3))]
     ext = np.array([gshape[D - 1 - k] for k in range(D)])       # extent per PHYSICAL axis (x first)
-    c = interp.comm(D, h, N, real_t, kind, ncomp)
+    c = interp.comm(D, h, N, real_t, kind, ncomp, sfrac)
     if clustered:
         base = np.array([rng.integers(2, n - 3) for n in ext])
         # half of the clustered cases sit at the far end of every axis
         if rng.random() < 0.5:
             base = ext - 4
-        pos = ((base[:, None] + rng.random((D, N))) * h + h / 2).astype(real_t)
+        pos = ((base[:, None] + rng.random((D, N))) * h + sfrac * h).astype(real_t)
         pos[:, -1] = pos[:, 0]  # a duplicated marker
     else:
         cells = np.stack([rng.integers(2, n - 3, N) for n in ext])
         cells[:, 0] = ext - 4                                     # one marker as far along every axis as admissible
-        pos = ((cells + rng.random((D, N))) * h + h / 2).astype(real_t)
+        pos = ((cells + rng.random((D, N))) * h + sfrac * h).astype(real_t)
     idx, w = interp.support_and_weights(c, pos, D, real_t)
     shape = ((ncomp,) if ncomp > 1 else ()) + tuple(gshape)
     u = rng.integers(-4, 5, shape).astype(real_t)
@@ -104,7 +107,7 @@ def adjoint_on_code(chk, D, kind, real_t, h, rng, N, ncomp, clustered):
             ax = D - 1 - k
             sh = [1] * D
             sh[ax] = gshape[ax]
-            coord = ((np.arange(gshape[ax]) + 0.5) * h).reshape(sh)
+            coord = ((np.arange(gshape[ax]) + sfrac) * h).reshape(sh)
             sp = spread.reshape((ncomp if ncomp > 1 else 1,) + tuple(gshape))
             mom = (sp * coord).reshape(sp.shape[0], -1).sum(axis=1) * h**D
             want = (F.astype(float).reshape(sp.shape[0], -1) * pos[k].astype(float)).sum(axis=1)
